@@ -4,7 +4,7 @@ from harness import gen_text as G
 
 class C19(Prop):
     id = 'C19'
-    theorems = ['C17.hist_comment', 'C17.observation_is_pure', 'C19.files_code_independent', 'C19.code_ignores_leading_comment', 'C19.line_spec', 'C19.prefix_spec', 'C19.render_spec', 'C19.starts_with_slashes',
+    theorems = ['C17.hist_comment', 'C17.observation_is_pure', 'C17.step2_frame', 'C19.files_code_independent', 'C19.code_ignores_leading_comment', 'C19.line_spec', 'C19.prefix_spec', 'C19.render_spec', 'C19.starts_with_slashes',
                 'C19.content_rendering', 'C19.length_preserved']
     proof_modules = ['DznProofs.C19', 'DznProofs.C19Files', 'DznProofs.C17Hist']
     level_rule = ('hostile comment text: every Python line separator, leading/trailing whitespace, '
@@ -26,6 +26,7 @@ class C19(Prop):
         yield 'extended', [{'op': 'comment.str', 'content': G.gen_content(rng, rng.choice([0, 2])),
                             'extend': G.gen_content(rng, rng.choice([0, 1, 2]))} for _ in range(n // 2)]
         yield 'comment.hist', [G.gen_hist(rng, comment=True) for _ in range(n // 2)]
+        yield 'blocks.hist2', [G.gen_hist2(rng) for _ in range(n // 4)]
 
     def impl(self, case):
         return G.run_text_op(case)
